@@ -11,3 +11,12 @@ CLAIMED["C03"] = (
  "counter is only accessed atomically. Does not decide equality with an independent ledger over histories nor kernel signal behaviour.",
  COMMON_NOTE + "Assumes the anchors (*poller).pending, Slot.Events, (*IO).RunPending/poll keep their identity; a renamed anchor makes the check fail with exit 2 rather than pass.",
  "DESIGN.md section 5 C03")
+
+CLAIMED["C05"] = (
+ "lockset dataflow (may/must-held) + effect analysis; ordering by reachability-avoiding search; who-may-call and goroutine reachability over resolved callees",
+ "Static necessary-condition analysis. Decides that no function value runs while the poller's queue mutex is held, the append-before-wake and "
+ "drain-before-take orderings, the swap-under-lock hand-over (no aliasing with the running batch, tail append, increasing iteration), the lockset of "
+ "the queue/counter/closed flag, that posted handlers run only from the poll loop and that the goroutine of AsyncHandshake reaches the stream state "
+ "and the user callback only through the closure it posts. Does not decide races in user code, fairness, or that the eventfd write cannot block.",
+ COMMON_NOTE,
+ "DESIGN.md section 5 C05")
